@@ -102,6 +102,14 @@ type c12Path struct {
 	AckEvery int   // receiver acknowledges every n-th packet (or after 25 ms, or at once on a gap)
 	QuicSize int64 // datagram size QUIC starts with
 	Seed     int64 // size handed to NewBbrSender = seedPacketSize(QuicSize, guess by address)
+	Unit     time.Duration // duration of "1 RTT" in the macro-events (0: RTT)
+}
+
+func (p *c12Path) unit() int64 {
+	if p.Unit != 0 {
+		return int64(p.Unit)
+	}
+	return int64(p.RTT)
 }
 
 var c12Paths = []c12Path{
@@ -113,6 +121,10 @@ var c12Paths = []c12Path{
 
 // long fat path on which the real maximum window (20000 datagrams) is reachable
 var c12LongFat = c12Path{Name: "10Gbit-25ms-q1bdp", Cap: 1250000000, RTT: 25 * time.Millisecond, Queue: 31250000, AckEvery: 10, QuicSize: 1280, Seed: 1280}
+
+// tiny-BDP path on which the window sits on its floor of four datagrams
+// (capacity*RTT < 1 datagram; macro-events are measured in units of 100 ms instead of the 5 ms RTT)
+var c12TinyBDP = c12Path{Name: "1024kbit-4ms-q8KB", Cap: 128000, RTT: 4 * time.Millisecond, Queue: 8192, AckEvery: 1, QuicSize: 1280, Seed: 1280, Unit: 100 * time.Millisecond}
 
 var c12Profiles = []Profile{ProfileConservative, ProfileStandard, ProfileAggressive}
 
@@ -218,7 +230,8 @@ type c12Sim struct {
 	mtuRaises   int64
 	tailDrops   int64
 	sentPkts    int64
-	minUtilMark int64
+	atFloor     int64
+	atCeil      int64
 }
 
 func c12NewSim(path *c12Path, profile Profile, maxPkts int64) *c12Sim {
@@ -253,6 +266,12 @@ func (s *c12Sim) check(where string) {
 	cw := int64(b.GetCongestionWindow())
 	if cw < 4*d {
 		s.fail("cwnd<4*datagram", "%s: GetCongestionWindow()=%d < 4*%d (mode %d, recovery %d)", where, cw, d, b.mode, b.recoveryState)
+	}
+	if cw == 4*d {
+		s.atFloor++
+	}
+	if cw >= s.maxPkts*d-d {
+		s.atCeil++
 	}
 	if cw > s.maxPkts*d {
 		s.fail("cwnd>max", "%s: GetCongestionWindow()=%d > %d*%d", where, cw, s.maxPkts, d)
@@ -625,7 +644,7 @@ func (s *c12Sim) burstLoss() {
 
 // macro executes one macro-event of the alphabet.
 func (s *c12Sim) macro(ev int) {
-	R := int64(s.path.RTT)
+	R := s.path.unit()
 	s.hasData, s.drop3, s.evSent, s.stopEmpty, s.sendCap = true, false, 0, false, -1
 	switch ev {
 	case c12EvClean1:
@@ -699,13 +718,44 @@ func (s *c12Sim) macro(ev int) {
 type c12Case struct {
 	Part    string `json:"part"`
 	Profile string `json:"profile"`
-	Path    int    `json:"path"` // index into c12Paths; -1 = long fat path
+	Path    int    `json:"path"` // index into c12Paths; -1 = long fat path, -2 = tiny-BDP path
 	MaxPkts int64  `json:"max_window_packets"`
 	Prefix  []int  `json:"prefix,omitempty"`
 	Seq     []int  `json:"seq"`
 	Draw    int64  `json:"draw"`
 	RTTs    int    `json:"rtts,omitempty"` // loss-free part: length of the clean run
+	// raise-at-boundary-windows part: after the prefix the window fields are set to a boundary value
+	// (as the upstream tests do) and QUIC reports a datagram size raised by Raise
+	ForceWin string `json:"force_window,omitempty"`
+	ForceRec string `json:"force_recovery_window,omitempty"`
+	Raise    int64  `json:"raise,omitempty"`
 }
+
+// c12Boundary resolves a boundary label against the sender's current window constants.
+func c12Boundary(b *bbrSender, label string) (v int64, ok bool) {
+	switch label {
+	case "min":
+		return int64(b.minCongestionWindow), true
+	case "min+1":
+		return int64(b.minCongestionWindow) + 1, true
+	case "min+datagram":
+		return int64(b.minCongestionWindow + b.maxDatagramSize), true
+	case "initial-1":
+		return int64(b.initialCongestionWindow) - 1, true
+	case "initial":
+		return int64(b.initialCongestionWindow), true
+	case "initial+1":
+		return int64(b.initialCongestionWindow) + 1, true
+	case "max-1":
+		return int64(b.maxCongestionWindow) - 1, true
+	case "max":
+		return int64(b.maxCongestionWindow), true
+	}
+	return 0, false
+}
+
+var c12WinLabels = []string{"min", "min+1", "min+datagram", "initial-1", "initial", "initial+1", "max-1", "max"}
+var c12RecLabels = []string{"", "min", "min+datagram", "max"}
 
 type c12Result struct {
 	clause, detail, infra string
@@ -716,8 +766,11 @@ type c12Result struct {
 }
 
 func c12PathOf(i int) *c12Path {
-	if i < 0 {
+	if i == -1 {
 		return &c12LongFat
+	}
+	if i == -2 {
+		return &c12TinyBDP
 	}
 	return &c12Paths[i]
 }
@@ -739,7 +792,7 @@ func c12Run(c *c12Case) (res c12Result) {
 		s = c12NewSim(c12PathOf(c.Path), Profile(c.Profile), c.MaxPkts)
 		res.sim = s
 		if c.RTTs > 0 {
-			R := int64(s.path.RTT)
+			R := s.path.unit()
 			s.hasData = true
 			s.run(s.now + 40*R)
 			mark := s.ackedBytes
@@ -752,6 +805,21 @@ func c12Run(c *c12Case) (res c12Result) {
 				break
 			}
 			s.macro(e)
+		}
+		if c.Raise > 0 && s.clause == "" && s.infra == "" {
+			if v, ok := c12Boundary(s.b, c.ForceWin); ok {
+				s.b.congestionWindow = congestion.ByteCount(v)
+			}
+			if v, ok := c12Boundary(s.b, c.ForceRec); ok {
+				s.b.recoveryWindow = congestion.ByteCount(v)
+			}
+			res.shape = fmt.Sprintf("%s/m%d/r%d", string(s.trans), s.b.mode, s.b.recoveryState)
+			if n := min(s.qSize+c.Raise, c12MaxMTU); n > s.ccSize {
+				s.qSize, s.ccSize = n, n
+				s.mtuRaises++
+				s.b.SetMaxDatagramSize(congestion.ByteCount(n))
+				s.check(fmt.Sprintf("after SetMaxDatagramSize(%d) with window=%s recovery window=%q", n, c.ForceWin, c.ForceRec))
+			}
 		}
 		for _, e := range c.Seq {
 			if s.clause != "" || s.infra != "" {
@@ -774,7 +842,7 @@ func c12Run(c *c12Case) (res c12Result) {
 	} else if s != nil {
 		res.clause, res.detail, res.infra = s.clause, s.detail, s.infra
 	}
-	if s != nil {
+	if s != nil && res.shape == "" {
 		res.shape = string(s.trans)
 	}
 	return res
